@@ -72,10 +72,11 @@ func c02Case(w *rt.W, n uint64, set int) {
 			if k < 0 {
 				continue
 			}
-			o, err := roman.DefaultFormatter(append(make([]byte, 0, k+1), '#'), roman.Number(n), f)
+			const pre = "VOL.MDCLXVI " // existing content made of the letters the formatter itself emits
+			o, err := roman.DefaultFormatter(append(make([]byte, 0, k+len(pre)), pre...), roman.Number(n), f)
 			w.Eval(1)
-			if err != nil || string(o) != "#"+want {
-				c02Fail(w, "format-spare-capacity", n, set, fmt.Sprintf("DefaultFormatter(\"#\" with spare %d)", k), string(o), "#"+want)
+			if err != nil || string(o) != pre+want {
+				c02Fail(w, "format-spare-capacity", n, set, fmt.Sprintf("DefaultFormatter(%q with spare %d)", pre, k), string(o), pre+want)
 			}
 		}
 	}
@@ -139,15 +140,16 @@ func c02Verbs(w *rt.W, n uint64) {
 	for _, vb := range []struct {
 		verb string
 		f    roman.Format
-	}{{"%R", 0}, {"%r", roman.FormatLowerCase}, {"%L", long}, {"%l", long | roman.FormatLowerCase}, {"%s", df}, {"%v", df}} {
+	}{{"%R", 0}, {"%r", roman.FormatLowerCase}, {"%L", long}, {"%l", long | roman.FormatLowerCase}, {"%s", df}, {"%v", df},
+		{"%+v", df}, {"%#v", df}, {"%+R", 0}, {"%-9r", roman.FormatLowerCase}, {"%09L", long}, {"%.2l", long | roman.FormatLowerCase}, {"% s", df}} {
 		want := ref.RomanFormat(n, refRomanFlags(vb.f))
 		if s := fmt.Sprintf(vb.verb, num); s != want {
 			fail("verb", "Sprintf "+vb.verb, s, want)
 		}
 	}
-	w.Eval(8)
+	w.Eval(15)
 	if roman.MaxInputLength == 0 || len(wantD) <= roman.MaxInputLength {
-		var u roman.Number
+		u := roman.Number(n + 12345) // the receiver already holds another value
 		err := u.UnmarshalText([]byte(wantD))
 		w.Eval(1)
 		if err != nil {
@@ -169,6 +171,23 @@ func hasFourOrNine(n uint64) bool {
 		}
 	}
 	return false
+}
+
+func init() {
+	ns := []uint64{0, 1, 4, 9, 444, 1994, 3999, 4000, 127999}
+	coldCases["C02"] = coldGeneric([]func(){
+		func() { _, _ = roman.DefaultParser("", 0) },
+		func() { _, _ = roman.DefaultFormatter(nil, 0, roman.FormatLowerCase) },
+		func() { _ = roman.Valid("mmxxiv", 0) },
+		func() { var n roman.Number; _ = n.UnmarshalText([]byte("iiii")) },
+		func() { _ = fmt.Sprintf("%l", roman.Number(49)) },
+		func() {},
+	}, func(w *rt.W, k int) {
+		for _, set := range []int{0, 127, 64, 63} {
+			c02Case(w, ns[k], set)
+		}
+		c02Verbs(w, ns[k])
+	}, len(ns))
 }
 
 func runC02(c *rt.Ctx) {
@@ -311,6 +330,7 @@ func runC02(c *rt.Ctx) {
 	}
 	roman.Formatter, roman.DefaultFormat = oldF, old
 	c.Require("failing-formatter", 50)
+	coldStart(c, "C02", 12)
 	c.Require("digit-4-or-9", 1000)
 	c.Require("numeral-may-exceed-limit", 1)
 	c.Require("verbs-under-default-format", 128)
